@@ -65,6 +65,10 @@ def step (q : Q) (line : String) : Q × String :=
       else (q, "noseg")
     | none => (q, "bad-op")
   | ["purge"] => (Q.purge (q.segs.length + 1) q, "ok")
+  | ["crash"] =>
+    -- a crash image taken now, restarted; the segment size limit is configuration and is set again
+    let q1 := q.crash
+    (q1.setMaxSegmentSize q.maxSegSize, "ok")
   | ["close"] => (q.close, "ok")
   | ["open"] => if q.segs.isEmpty then (q.open_, "ok") else (q, "already-open")
   | ["usage"] => (q, s!"usage {q.diskUsage} segs {joinCsv (q.segs.map fun s => toString s.id)}")
